@@ -9,10 +9,29 @@ func genC20(o *Out) {
 		"LeveldbPermanent.loadNetworkPolicy")
 	_ = o.pinFile("isaac/database/perm_base.go", "basePermanent.LastSuffrageProofBytes", "basePermanent.LastBlockMapBytes", "basePermanent.LastSuffrageProof", "basePermanent.LastBlockMap")
 	g := o.pinFile("isaac/database/leveldb.go", "baseLeveldb.loadLastBlockMap", "baseLeveldb.loadNetworkPolicy")
-	_ = o.pinFile("isaac/database/center.go", "Center.load", "loadTemps")
-	if f == nil || g == nil {
+	ct := o.pinFile("isaac/database/center.go", "Center.load", "loadTemps", "loadTemp", "Center.RemoveBlocks", "Center.removeTemp", "Center.cleanRemoved")
+	_ = o.pinFile("isaac/database/block_write.go", "removeHigherHeights")
+	if f == nil || g == nil || ct == nil {
 		return
 	}
+	// the temps of a Center opened anew (Model/ReopenTemps.lean)
+	scansAll := false
+	if fd := ct.Func("", "loadTemp"); fd != nil {
+		src := normSpace(ct.Src(fd.Body))
+		scansAll = strings.Contains(src, "for i := range prefixes { prefix := prefixes[i] if found != nil { useless = append(useless, prefix) continue }") &&
+			strings.Contains(src, "case !ismerged: useless = append(useless, prefix) continue default: found = temp")
+	} else {
+		o.errf("loadTemp not found")
+	}
+	o.boolean("loadTempScansAll", scansAll)
+	removes := false
+	if fd := ct.Func("Center", "RemoveBlocks"); fd != nil {
+		src := normSpace(ct.Src(fd.Body))
+		removes = strings.Contains(src, "util.TraverseSlice(db.temps[:index+1], func(_ int, temp isaac.TempDatabase) error { return temp.Remove() })")
+	} else {
+		o.errf("Center.RemoveBlocks not found")
+	}
+	o.boolean("removeBlocksRemovesOnDisk", removes)
 	bm := false
 	if fd := g.Func("baseLeveldb", "loadLastBlockMap"); fd != nil {
 		src := normSpace(g.Src(fd.Body))
